@@ -15,6 +15,8 @@
 #define ALN_CONTROLLER_IMPORT
 #include "aln_controller.h"
 
+#include "kalign_verif.h"
+
 
 static int aln_continue(struct aln_mem* m,float input_states[],int old_cor[],int meet,int transition, uint8_t serial);
 
@@ -61,6 +63,10 @@ int aln_runner(struct aln_mem* m)
         m->enda_2 = old_cor[1];
 
         /* fprintf(stderr,"Forward:%d-%d	%d-%d\n",m->starta,m->enda,m->startb,m->endb); */
+#ifdef KALIGN_VERIF
+        m->kv_par = 1;
+        KV_HOOK(kv_hstep(m, old_cor, 1));
+#endif
 #ifdef HAVE_OPENMP
 #pragma omp parallel
 #pragma omp single nowait
@@ -156,6 +162,10 @@ int aln_runner_serial(struct aln_mem* m)
         m->starta_2 = mid;
         m->enda_2 = old_cor[1];
 
+#ifdef KALIGN_VERIF
+        m->kv_par = 0;
+        KV_HOOK(kv_hstep(m, old_cor, 0));
+#endif
         if(m->seq1){
                 aln_seqseq_foward(m);
                 aln_seqseq_backward(m);
@@ -194,6 +204,7 @@ int aln_runner_serial(struct aln_mem* m)
 int aln_continue(struct aln_mem* m,float input_states[],int old_cor[],int meet,int transition, uint8_t serial)
 {
         int* path = m->path;
+        KV_HOOK(kv_hsplit(m, old_cor, meet, transition, serial));
         switch(transition){
         case 1: //a -> a = 1
 
